@@ -87,6 +87,19 @@ def run(chk):
         inputs.append(b"function main() -> void { int x = 1; " + b"x == 1 ? " * d + b"echo(1); " + b": echo(0); " * d + b" }")
         inputs.append(b"function main() -> void { int x = 1; " + b"if (x == 1) { " * d + b"echo(1);" + b" }" * d + b" }")
         inputs.append(b"function main() -> void { int x = " + b"(int) " * d + b"1; }")
+    # numeric extremes in every position where the front end converts digits itself (index guards, array sizes, @shots, literals)
+    NUMS = ["0", "7", "2147483647", "2147483648", "4294967295", "4294967296", "9223372036854775807", "9223372036854775808",
+            "18446744073709551616", "9" * 20, "9" * 25, "1" + "0" * 40, "9" * 400, "00000000000000000000001", "0" * 30]
+    for n in NUMS:
+        for form in ("function main() -> void { int[] a = {1, 2}; echo(a[-%s]); }", "function main() -> void { int[] a = {1, 2}; echo(a[%s]); }",
+                     "function main() -> void { int[] a = {1, 2}; a[-%s] = 1; }", "function main() -> void { int[%s] a; }",
+                     "function main() -> void { int[-%s] a; }", "@shots(%s) function main() -> void { }", "@shots(-%s) function main() -> void { }",
+                     "function main() -> void { int x = %s; }", "function main() -> void { int x = -%s; }", "function main() -> void { long x = %sL; }",
+                     "function main() -> void { long x = -%sL; }", "function main() -> void { float x = %s.5f; }", "function main() -> void { float x = %sf; }",
+                     "function main() -> void { bit x = %sb; }", "function main() -> void { int[] a = {1}; echo(a[-(%s)]); }",
+                     "function main() -> void { int[] a = {1}; echo(a[- -%s]); }", "function main() -> void { qubit[%s] q; }",
+                     "function main() -> void { int x = 1; echo(x[-%s][-%s]); }"):
+            inputs.append((form.replace("%s", n)).encode())
     inputs += [b"@shots(99999999999) function main() -> void { }", b"@shots(5) function main() -> void { }",
                b"@quantum function f() -> bit { qubit q; return measure q; }", b"function main() -> void { int[99999999999] a; }"]
     # structured analyser hazards: inheritance graphs with cycles, self-extension, chains leading into a cycle (under many class
